@@ -373,6 +373,9 @@ class ProcessRunner(Runner, ABC):
     def wait(self, *, timeout_seconds: Optional[float]) -> Iterator[tuple[Task, ResultMeta | BaseException]]:
         self._consume_log_queue()
         done, _ = self.executor.wait(list(self.future_to_task.keys()), timeout_seconds=timeout_seconds)
+        # Workers log before they return their result, so all logs of
+        # the completed tasks are on the queue by now.
+        self._consume_log_queue()
         for future in done:
             task = self.future_to_task[future]
             if future.cancelled:
